@@ -21,8 +21,13 @@ def coq_case(c):
         core.clist([ec.cres(r) for r in c.get("runs") or []]), core.clist([ec.cbl(s) for s in c.get("sugg") or []]), c["kind"])
 
 
+FAMILIES = {"eng": dict(
+    HARNESS="eng", N={"quick": 150, "thorough": 2000}, SHARD=25, CASE_TYPE="ecase", CHECK_FN='check_cases "C02"', HEADER=ec.ENG_HEADER,
+    coq_case=ec.cecase, preamble=ec.eng_preamble, identity=ec.eng_identity, sample=ec.eng_sample, shrink_candidates=ec.eng_shrink)}
+
+
 def keep(c):
-    return not c.get("note_db")
+    return not c.get("note_db") and not c.get("note")
 
 
 def identity(c):
